@@ -106,6 +106,15 @@ def _inject(rq):
 def main(chk, replay=None):
     from harness import c03_lib as L
     t = TIERS[chk.tier]
+    # the descriptor observation must see a descriptor that is open (vacuity guard for FilesClosed)
+    import gc
+    gc.collect()
+    b4 = L.open_fds()
+    probe = open(os.devnull, "rb")
+    seen = L.fd_targets(L.open_fds() - b4)
+    probe.close()
+    if "/dev/null" not in seen or (L.open_fds() - b4):
+        raise core.MachineryError("C20: /proc/self/fd snapshots do not show an open descriptor: %r" % (seen,))
     defects = L.known_defects(chk)
     lists = c03.read_conf_lists()
     tcfg = c03.TIERS["quick"]
@@ -175,7 +184,9 @@ def main(chk, replay=None):
                              extra_files={"MC_C03_consts.tla": consts, "TraceC20_run.cfg": c03.TRACE_CFG})
     for rj in tv["rejected"]:
         tr = traces[rj["index"]]
-        chk.violation("%s:%s" % (tr["id"], rj["clause"]), rj["clause"], tr["case"],
+        clause, _, site = rj["clause"].partition("@")
+        tr["case"]["site"] = site or tr["case"].get("site", "none")
+        chk.violation("%s:%s" % (tr["id"], clause), clause, tr["case"],
                       {"event": tr["events"][0], "extra": tr["extras"][0]})
     dr = [dict(d, id=traces[d["index"]]["id"]) for d in tv["drift"]]
     chk.note_drift(dr)
@@ -259,8 +270,12 @@ def socket_cases(n, lists):
             deadline = time.time() + 20
             while time.time() < deadline and not any("EXCEPTION" in l for l in logbuf) and not escaped:
                 time.sleep(0.02)
-            time.sleep(0.1)
-            gc.collect()
+            settle = time.time() + 5            # the worker thread closes its socket and file after logging
+            while time.time() < settle:
+                gc.collect()
+                if not (L.open_fds() - before):
+                    break
+                time.sleep(0.05)
             recs = [r for r in L.log_records(list(logbuf)) if r["ev"] == "log"]
             recs = [dict(r, addr="client" if r["addr"] == "127.0.0.1" else r["addr"]) for r in recs]
             if not recs and not escaped:
@@ -299,7 +314,7 @@ def selftest():
     b3 = json.loads(json.dumps(good)); b3["id"] = "descriptor-leaked"; b3["events"][0]["nfds"] = 1
     b4 = json.loads(json.dumps(good)); b4["id"] = "escaped"; b4["events"][0]["esc"] = "BrokenPipeError"
     tv = tlc.validate_traces("TraceC20", "TraceC20_run.cfg", [good, b1, b2, b3, b4], extra_files=ex)
-    got = {r["trace"]["id"]: r["clause"] for r in tv["rejected"]}
+    got = {r["trace"]["id"]: r["clause"].partition("@")[0] for r in tv["rejected"]}
     print("accepted:", tv["accepted"], "rejected:", got)
     return tv["accepted"] == 1 and got == {"class-corrupted": "OwnClass", "records-dropped": "OwnClass",
                                            "descriptor-leaked": "FilesClosed", "escaped": "Contained"}
